@@ -1,5 +1,5 @@
 #!/usr/bin/env python3
-"""Prints the markdown table of seeded defects (seeded/*/meta.json) for DESIGN.md section 11.7."""
+"""Prints the markdown table of seeded defects (seeded/*/meta.json): docs/seeded_table.md, summarised in DESIGN.md 11.9."""
 import glob, json, os
 V = os.path.dirname(os.path.dirname(os.path.abspath(__file__)))
 
